@@ -95,7 +95,8 @@ func opcodeCases(p *packages.Package, fd *ast.FuncDecl) (cases []opcodeCase, swi
 		dispatches := false
 		ast.Inspect(sw.Body, func(n ast.Node) bool {
 			if call, ok := n.(*ast.CallExpr); ok {
-				if sel, ok := call.Fun.(*ast.SelectorExpr); ok && strings.HasPrefix(sel.Sel.Name, "run") {
+				name := exprString(call.Fun)
+				if _, isSel := call.Fun.(*ast.SelectorExpr); isSel && !strings.HasPrefix(name, "log.") && !strings.HasPrefix(name, "fmt.") {
 					dispatches = true
 				}
 			}
